@@ -410,7 +410,7 @@ func scnUGM(name string, confs []string, alphabet []string, prefix []world.Op) *
 }
 
 func init() {
-	sched := []string{"SCHEDULE", "ASK", "RELEASE", "APP_ADD", "APP_REMOVE"}
+	sched := []string{"SCHEDULE", "ASK", "RELEASE", "RELEASE_ALL", "APP_ADD", "APP_REMOVE"}
 	var quick, thorough []Run
 	for i := 1; i < len(c05Layouts); i++ {
 		n := fmt.Sprintf("ugm-sched-%d", i)
